@@ -130,3 +130,24 @@ class Space:
             if c is not None:
                 out.extend(c if isinstance(c, list) else [c])
         return out
+
+
+def overlap_layout(seed, nblocks=12, nlabels=5, blocksize=3):
+    """a label layout over `nblocks` equal blocks in which every label lives in a few blocks and labels
+    overlap only partially (the situation in which the cohort planner MERGES cohorts).  Deterministic in
+    `seed` (the family seed=0..K is part of the enumerated case space)."""
+    import random
+
+    rng = random.Random(1000 + seed)
+    where = {}
+    for lab in range(nlabels):
+        k = rng.choice([2, 3, 3, 4])
+        start = rng.randrange(nblocks)
+        blocks = {(start + rng.choice([0, 1, 2, 3, 5]) * j) % nblocks for j in range(k)}
+        where[lab] = blocks
+    codes = []
+    for b in range(nblocks):
+        here = [lab for lab in range(nlabels) if b in where[lab]] or [rng.randrange(nlabels)]
+        for j in range(blocksize):
+            codes.append(here[(j + b) % len(here)])
+    return codes, [blocksize] * nblocks
